@@ -34,8 +34,11 @@ def build_objects(domain, objects):
     return {n: PDDLObject(name=n, type=domain.types[t]) for n, t in objects}
 
 
-def build_state(domain, world, st, is_init=True):
-    """Constructs a library State the way ProblemParser does (same keys, same object kinds)."""
+def build_state(domain, world, st, is_init=True, variants=False):
+    """Constructs a library State the way ProblemParser does (same keys, same object kinds).  variants=True
+    additionally stores, for every fact with an argument whose own type is a strict subtype of the declared
+    parameter type, the same fact annotated with the arguments' own types - what an add effect of an action whose
+    parameters have those types leaves in a state that already held the fact."""
     from pddl_plus_parser.models import GroundedPredicate, PDDLFunction, State
     preds = defaultdict(set)
     for atom in sorted(st[0]):
@@ -43,6 +46,11 @@ def build_state(domain, world, st, is_init=True):
         mapping = {param: obj for obj, param in zip(atom[1:], lifted.signature)}
         preds[lifted.untyped_representation].add(
             GroundedPredicate(name=atom[0], signature=lifted.signature, object_mapping=mapping))
+        if variants:
+            own = {param: domain.types[world.objects[obj]] for obj, param in zip(atom[1:], lifted.signature)}
+            if any(own[p].name != lifted.signature[p].name for p in own):
+                preds[lifted.untyped_representation].add(
+                    GroundedPredicate(name=atom[0], signature=own, object_mapping=dict(mapping)))
     fluents = {}
     for key in sorted(st[1]):
         v = st[1][key]
